@@ -883,7 +883,7 @@ func (p *Prog) fieldNamesOnce() {
 				}
 				for i := 0; i < st.NumFields(); i++ {
 					f := st.Field(i)
-					name := prefix + "." + f.Name()
+					name := prefix + "." + CanonName(f)
 					if _, dup := m[f.Origin()]; !dup {
 						m[f.Origin()] = name
 					}
